@@ -239,6 +239,7 @@ class Source:
             b = clean.find('{', m.end())
             # where clauses may contain braces? no.  header = text up to '{'
             header = ' '.join(clean[m.end():b].split())
+            if '$' in header: continue          # an impl inside a macro_rules! body: its instances are not readable from the source text (a harness that needs one ends inconclusive)
             im = Impl(); im.file, im.line, im.derive = rel, line, False
             gens = []
             if header.startswith('<'):
